@@ -25,6 +25,7 @@ DRIVER = cgroup.DRIVER
 SETUP_MODULES = ["FaxVerif.Cpp.Json", "FaxVerif.Gen.Render", "FaxVerif.C03.Spec", "FaxVerif.Cpp.Check"]  # what the driver imports
 THEOREMS = [
     "FaxVerif.C01.pure_expr_correct",
+    "FaxVerif.C01.eventRows_correct_partial",
     "FaxVerif.C01.elemRows_correct_partial",
     "FaxVerif.C01.scalar_correct_partial",
     "FaxVerif.C01.loop_is_fold",
@@ -33,6 +34,9 @@ THEOREMS = [
     "FaxVerif.Gen.chainList_elems",
     "FaxVerif.Gen.count_correct",
     "FaxVerif.Gen.sum_correct",
+    "FaxVerif.Gen.compCol_correct",
+    "FaxVerif.Gen.compCols_correct",
+    "FaxVerif.Gen.exec_decls",
     "FaxVerif.C01.backendOK_atlas",
     "FaxVerif.C01.backendOK_cmsAod",
 ]
@@ -54,16 +58,16 @@ ASSUMPTIONS = [
 ]
 LEVEL_TEXT = (
     "Lean 4 compiler-correctness theorems for a compositional model of the translator on the fragment F0-lite, for every query of "
-    "the fragment (unbounded chain length, expression size, number of columns), every event, every number model: element-level rows "
-    "end-to-end (elemRows_correct_partial), event-level scalars with Count/Sum and arithmetic incl. the int/int division cast "
-    "(scalar_correct_partial), pure expressions with faults (pure_expr_correct), the loop as a fold (loop_is_fold), the fused-Where "
-    "and-lowering. The model is tied to the real translator on every run by text equality on generated fragment queries (three "
+    "the fragment (unbounded chain length, expression size, number of columns), every event, every number model, END TO END for the "
+    "whole emitted package: event-level rows with scalar (Count/Sum/arithmetic incl. the int/int division cast), vector and First "
+    "columns (eventRows_correct_partial) and element-level rows (elemRows_correct_partial); plus the building blocks: pure expressions "
+    "with faults (pure_expr_correct), the loop as a fold (loop_is_fold), the fused-Where and-lowering, hoisted declarations. The model is tied to the real translator on every run by text equality on generated fragment queries (three "
     "backends). Beyond the fragment (nested loops, First, and/or/if-else in expressions, 2-D columns, miniAOD tokens) the property is "
     "checked by executing the implementation's own output in the Lean semantics against the Lean denotation — differential, not proof."
 )
 LEVEL_NOTE = (
-    "Proof frontier: F0-lite as stated; event-level rows with several columns are proved per column fragment (scalar_correct_partial, "
-    "loop_is_fold), their assembly into one row is not yet a theorem. Defect exclusions (listed in known_findings.jsonl with concrete "
+    "Proof frontier: F0-lite as stated (no loops nested inside lambdas, no and/or/if-else inside expressions, no 2-D columns, no "
+    "miniAOD tokens); success direction only. Defect exclusions (listed in known_findings.jsonl with concrete "
     "inputs, the generator stays outside them): aggregates/First over SelectMany inside a lambda; lambda bodies that ignore their "
     "variable under First/aggregates; sequence-valued columns in element-level rows; Min/Max seeded with 0; Range with computed bounds; "
     "self-join through one shared node; bare collection-valued column."
